@@ -147,12 +147,12 @@ def Stream.sendHeaders (cfg : Config) (headers : List Header) (endStream : Bool)
       let _ ← onStream (processInput .SEND_END_STREAM)
       pure (setEndStream frames)
     else pure frames
-  let s ← getS
-  let st := s.1
-  let st := if st.sm.client == some true && st.authority.isNone
-            then { st with authority := authorityFromHeaders headers } else st
-  let st := if !st.sm.trailersSent then { st with requestMethod := extractMethodHeader headers } else st
-  setS (st, s.2)
+  modifyS fun s =>
+    let st := s.1
+    let st := if st.sm.client == some true && st.authority.isNone
+              then { st with authority := authorityFromHeaders headers } else st
+    let st := if !st.sm.trailersSent then { st with requestMethod := extractMethodHeader headers } else st
+    (st, s.2)
   pure frames
 
 def Stream.pushStreamInBand (cfg : Config) (related : Int) (headers : List Header) : SH (List Frame) := do
@@ -173,7 +173,7 @@ def Stream.sendData (data : Bytes) (endStream : Bool) (pad : Option Int) : M Str
   if endStream then let _ ← processInput .SEND_END_STREAM
   let s ← getS
   let fcl : Int := data.length + (match pad with | some p => p + 1 | none => 0)
-  setS { s with outWin := s.outWin - fcl }
+  modifyS (fun s => { s with outWin := s.outWin - fcl })
   if s.outWin - fcl < 0 then raise (.py .AssertionError) else
   pure [Frame.data s.sid data endStream pad]
 
@@ -235,24 +235,38 @@ def pyParseInt (b : Bytes) : Option Int :=
   | _ => (parseDigits b none false).map Int.ofNat
 
 /-- `_initialize_content_length` -/
+inductive CLDecision where
+  | keep                -- leave `_expected_content_length` as it is
+  | set (n : Int)
+  | invalid             -- `int(v, 10)` failed: ProtocolError
+deriving Repr, DecidableEq, Inhabited
+
+/-- what `_initialize_content_length(headers)` decides, given the remembered request method -/
+def contentLengthDecision (requestMethod : Option Bytes) (headers : List Header) : CLDecision :=
+  if requestMethod == some (strBytes "HEAD") then .set 0 else
+  let status := (headers.find? fun h => h.name == HStr.b (strBytes ":status")).map (·.value)
+  let noBody : Option CLDecision := match status with
+    | some v =>
+      if v.startsWith [49] then some .keep
+      else if v == HStr.b (strBytes "204") || v == HStr.b (strBytes "304") then some (.set 0)
+      else none
+    | none => none
+  match noBody with
+  | some d => d
+  | none =>
+    match headers.find? fun h => h.name == HStr.b (strBytes "content-length") with
+    | none => .keep
+    | some h =>
+      match pyParseInt h.value.bs with
+      | some n => .set n
+      | none => .invalid
+
 def Stream.initializeContentLength (headers : List Header) : M Stream Unit := do
   let s ← getS
-  if s.requestMethod == some (strBytes "HEAD") then setS { s with expectedCL := some 0 } else
-  let status := (headers.find? fun h => h.name == HStr.b (strBytes ":status")).map (·.value)
-  let done ← match status with
-    | some v =>
-      if v.startsWith [49] then pure true
-      else if v == HStr.b (strBytes "204") || v == HStr.b (strBytes "304") then do
-        setS { s with expectedCL := some 0 }; pure true
-      else pure false
-    | none => pure false
-  if done then pure () else
-  match headers.find? fun h => h.name == HStr.b (strBytes "content-length") with
-  | none => pure ()
-  | some h =>
-    match pyParseInt h.value.bs with
-    | some n => setS { s with expectedCL := some n }
-    | none => raise protoErr'
+  match contentLengthDecision s.requestMethod headers with
+  | .keep => pure ()
+  | .set n => modifyS fun s => { s with expectedCL := some n }
+  | .invalid => raise protoErr'
 
 /-- `_track_content_length` -/
 def Stream.trackContentLength (length : Int) (endStream : Bool) : M Stream Unit := do
@@ -317,7 +331,7 @@ def Stream.receiveWindowUpdate (incr : Int) : M Stream (List Frame × List Event
   if events.isEmpty then pure ([], []) else
   match guard_increment_window s.outWin incr with
   | .ok w => do
-    setS { s with outWin := w }
+    modifyS (fun s => { s with outWin := w })
     pure ([], [Event.WindowUpdated s.sid (some incr)])
   | .error (.h2 c) =>
     if c.isSub .FlowControlError then do
